@@ -386,9 +386,9 @@ pub enum TopCall {
 /// Builds the transaction that makes `msg` originate from `origin` through entry point `ent` of the emitting
 /// contract; returns (top-level call, expected sender if already known, tag of the emitting script).
 /// `mode`: reply mode of the emitting sub-message; `sibling`: an accepting sibling dispatched before it.
-fn build(w: &RWorld, origin: Origin, ent: Ent, msg: &CosmosMsg<PMsg>, mode: RMode, sibling: Option<&CosmosMsg<PMsg>>, tag: u32) -> (TopCall, Option<String>, u32) {
+fn build(w: &RWorld, origin: Origin, ent: Ent, msg: &CosmosMsg<PMsg>, mode: RMode, sibling: Option<&CosmosMsg<PMsg>>, tag: u32, twice: bool) -> (TopCall, Option<String>, u32) {
     // a contract created by this very transaction needs money of its own to send a bank message
-    let inst_funds = if matches!(msg, CosmosMsg::Bank(_)) { vec![coin(5, "ua")] } else { vec![] };
+    let inst_funds = if matches!(msg, CosmosMsg::Bank(_)) { vec![coin(8, "ua")] } else { vec![] };
     match origin {
         Origin::Top => (TopCall::Execute(msg.clone()), Some(w.user.clone()), 0),
         Origin::Puppet(d) | Origin::Lifted(d) => {
@@ -401,6 +401,11 @@ fn build(w: &RWorld, origin: Origin, ent: Ent, msg: &CosmosMsg<PMsg>, mode: RMod
                 msgs.push(Sub { id: 1, mode: RMode::Never, payload: Payload::Raw(Binary::default()), msg: Msg::Opaque(s.clone()) });
             }
             msgs.push(Sub { id: 2, mode, payload: Payload::Plan(Box::new(plan)), msg: Msg::Opaque(msg.clone()) });
+            if twice {
+                // the very same sub-message listed twice in a row is dispatched twice
+                let again = msgs.last().unwrap().clone();
+                msgs.push(again);
+            }
             let emit_tag = tag + 3;
             let emit = Script { tag: emit_tag, writes: vec![(Binary::from(b"w".to_vec()), Some(Binary::from(format!("{}", tag).into_bytes())))], msgs, ..Default::default() };
             // the message that makes the emitting contract run `emit` in the requested entry point
@@ -460,9 +465,10 @@ pub fn exec_cell(w: &mut RWorld, k: Kind, origin: Origin, ent: Ent, mode: RMode,
     let msg = make_msg(k, n, &to);
     let sibling = if with_sibling && origin != Origin::Top { Some(make_msg(if k == Kind::Ibc { Kind::Gov } else { Kind::Ibc }, n + 1000, &to)) } else { None };
     let sibling_module = sibling.as_ref().map(|_| if k == Kind::Ibc { "gov" } else { "ibc" });
-    let (top, known_sender, emit_tag) = build(w, origin, ent, &msg, mode, sibling.as_ref(), (n as u32) * 100 + 5000);
     let module = module_of(k);
     let module_fails = (module != "bank" && module != "wasm" && w.hub.fails(module)) || k == Kind::BankEmpty;
+    let twice = origin != Origin::Top && !module_fails && n % 5 == 2;
+    let (top, known_sender, emit_tag) = build(w, origin, ent, &msg, mode, sibling.as_ref(), (n as u32) * 100 + 5000, twice);
     let sibling_fails = sibling_module.map(|m| w.hub.fails(m)).unwrap_or(false);
     // long runs must not fail for lack of funds: emitting contracts attach coins to bank kinds
     if matches!(k, Kind::Bank | Kind::BankEmpty) {
@@ -508,14 +514,18 @@ pub fn exec_cell(w: &mut RWorld, k: Kind, origin: Origin, ent: Ent, mode: RMode,
     // exactly one entry for our message, in the right module, with the true sender and an identical payload
     let mine: Vec<&LogEntry> = log.iter().filter(|e| e.kind == "exec" && e.payload == expected_payload(&msg)).collect();
     rep.bump("c17/log_entries_checked");
-    if mine.len() != 1 {
-        let others: Vec<String> = log.iter().map(|e| format!("{}:{}:{}", e.module, e.kind, e.payload)).collect();
-        return Some((if mine.is_empty() { "message-not-delivered-intact".into() } else { "message-delivered-more-than-once".into() }, format!("{}: expected one log entry {:?}, log is {:?}; result {:?}", ctx, expected_payload(&msg), others, res.as_ref().map(|_| "ok"))));
+    let expected_deliveries = if twice { 2 } else { 1 };
+    if twice {
+        rep.bump("c17/same_submessage_listed_twice");
     }
-    if mine[0].module != module {
+    if mine.len() != expected_deliveries {
+        let others: Vec<String> = log.iter().map(|e| format!("{}:{}:{}", e.module, e.kind, e.payload)).collect();
+        return Some((if mine.len() < expected_deliveries { "message-not-delivered-intact".into() } else { "message-delivered-more-than-once".into() }, format!("{}: expected {} log entries {:?}, log is {:?}; result {:?}", ctx, expected_deliveries, expected_payload(&msg), others, res.as_ref().map(|_| "ok"))));
+    }
+    if mine.iter().any(|e| e.module != module) {
         return Some(("message-routed-to-another-module".into(), format!("{}: delivered to {}", ctx, mine[0].module)));
     }
-    if mine[0].sender.as_deref() != Some(expected_sender.as_str()) {
+    if mine.iter().any(|e| e.sender.as_deref() != Some(expected_sender.as_str())) {
         return Some(("module-told-another-sender".into(), format!("{}: sender {:?}, expected {}", ctx, mine[0].sender, expected_sender)));
     }
     // no other module saw anything it should not have
